@@ -316,6 +316,68 @@ def _random_strategy(draw, tier='quick'):
             'wmax': draw(st.sampled_from([50., 500., 5000.])), 'scale': draw(gen.fl(0.1, 10.))}
 
 
+def check_nonsym(case, ctx):
+    """K = S + G with S symmetric positive definite and G skew (x'Kx > 0 for every x: the k0 + kA pencils of the aero-elastic route).
+    Beyond coalescence pairs of omega^2 are complex conjugates; the returned pairs must still be eigenpairs, mode included."""
+    from compmech.analysis import freq
+    rs = np.random.RandomState(case['seed'])
+    n = case['size']
+    Q, _ = np.linalg.qr(rs.normal(size=(n, n)))
+    lam = np.sort(rs.uniform(1., 100., n)) * case['wmax']
+    Lm = np.linalg.cholesky(Q.dot(np.diag(rs.uniform(1., case['mcond'], n))).dot(Q.T))
+    # in M-orthonormal coordinates: diag(lam) plus a skew coupling between neighbours, strong enough on some pairs to make them coalesce
+    T = np.diag(lam)
+    ncomplex = 0
+    for i in range(0, n - 1, 2):
+        gap = lam[i + 1] - lam[i]
+        g = gap * case['gfac'][i % len(case['gfac'])]
+        T[i, i + 1] += g
+        T[i + 1, i] -= g
+        if 2 * abs(g) > gap * 1.05:
+            ncomplex += 1
+        elif 2 * abs(g) > gap * 0.95:
+            T[i, i + 1] -= g       # keep clear of the defective (exactly coalescing) case
+            T[i + 1, i] += g
+    M = Lm.dot(Lm.T)
+    K = Lm.dot(T).dot(Lm.T)
+    sparse = case['sparse']
+    name = 'freq[nonsymmetric,%s]' % ('sparse' if sparse else 'dense')
+    ctx.label(name, 'complex-pairs:%s' % ('0' if ncomplex == 0 else '>=1'))
+    ctx.nontrivial = ncomplex > 0
+    k = case['k']
+    Ks, Ms = csr_matrix(K), csr_matrix(M)
+    with package(name):
+        ev, evec = freq(Ks, Ms, tol=0, sparse_solver=sparse, silent=True, sort=True, num_eigvalues=k)
+    ev = np.asarray(ev)
+    evec = np.asarray(evec)
+    ref = np.sqrt(scipy.linalg.eigvals(K, M).astype(complex))
+    wmax = np.max(np.abs(ref))
+    npair = min(len(ev), evec.shape[1], k)
+    ctx.ok(npair >= 1, name + '.shape', 'no eigenpair returned')
+    rowK = np.max(np.sum(np.abs(K), axis=1))
+    rowM = np.max(np.sum(np.abs(M), axis=1))
+    for i in range(npair):
+        d = np.min(np.abs(ref - ev[i]))
+        ctx.subchecks += 1
+        if d > 1e-6 * wmax:
+            raise Violation(name + '.eigenvalues', 'returned %r is not an eigenvalue of (K, M)' % (ev[i],))
+        v = evec[:, i]
+        vm = np.max(np.abs(v))
+        ctx.ok(vm > 0, name + '.residual', 'mode %d is zero' % i)
+        r = K.dot(v) - ev[i] ** 2 * M.dot(v)
+        sc = (rowK + abs(ev[i]) ** 2 * rowM) * vm
+        ctx.metric('nonsym-residual', np.max(np.abs(r)) / sc)
+        ctx.ok(np.max(np.abs(r)) <= 1e-6 * sc, name + '.residual',
+               'pair %d (omega=%r): |K v - omega^2 M v| / scale = %.3e' % (i, ev[i], np.max(np.abs(r)) / sc))
+
+
+@st.composite
+def _nonsym_strategy(draw, tier='quick'):
+    return {'seed': draw(st.integers(0, 2 ** 31 - 1)), 'size': draw(st.integers(8, 60)), 'k': draw(st.integers(2, 12)),
+            'sparse': draw(st.booleans()), 'mcond': draw(st.sampled_from([10., 1e3])), 'wmax': draw(st.sampled_from([1., 50., 5000.])),
+            'gfac': [draw(st.sampled_from([0., 0.1, 0.3, 0.8, 1.5, 3.])) for _ in range(4)]}
+
+
 @st.composite
 def _panel_strategy(draw, tier='quick'):
     case = draw(pkg.panel_case(models=('plate', 'cpanel', 'plate_w', 'kpanel'), mmax=5, mmin=3, sub_interval=False,
@@ -335,6 +397,10 @@ SUBS = [
     Sub('redefine', lambda tier: _panel_strategy(tier).map(lambda c: dict(c, mu_fac=1. + (c['k'] % 5), a_fac=1. + 0.1 * (c['k'] % 3))),
         check_redefine, quick=64, thorough=1000,
         rule='Panel.freq on one object, density and length edited, Panel.freq again: eigenpairs of the matrices of the new definition',
+        shards_quick=16),
+    Sub('nonsymmetric_pairs', _nonsym_strategy, check_nonsym, quick=400, thorough=6000,
+        rule='K = SPD + skew coupling (positive definite, not symmetric: the k0 + kA pencils), M SPD, sizes 8..60, both solver switches; every '
+             'returned pair is an eigenpair with its (possibly complex) mode; non-trivial = at least one complex-conjugate pair in the spectrum',
         shards_quick=16),
     Sub('bay_pairs', _bay_strategy, check_bay, quick=64, thorough=1000,
         rule='(k0, kM) of stiffened bays with 0..2 stiffeners of the three kinds through analysis.freq; non-trivial = at least one stiffener',
